@@ -55,7 +55,7 @@ CLAIMED: dict[str, tuple[str, str, str, str]] = {
             "spec/Collect.tla states which files must / must not be linted (layer A) and models the coded walk "
             "(os.walk pruning, exclusion on all path parts, fnmatch-style ignore matching; layer B); TLC checks "
             "B against A exhaustively for all ignore-pattern sets of size <=2 over 13 documented pattern forms x "
-            "3 targets x recursive flag on a 174-file universe (every always-excluded name at depth 1 and 2, "
+            "3 targets x recursive flag on a 180-file universe (every always-excluded name at depth 1 and 2, "
             "compiled artefacts, near-miss names) with a non-vacuity run of the pinned commit's prefix fallback; "
             "all cases are executed with the real CLI per carrier (.thailintignore, yaml, json, pyproject), "
             "with must-skip files also named explicitly; lint decisions recorded by the H2 tap and reported "
